@@ -429,7 +429,9 @@ func (gb *gcpBalancer) bindSubConn(bindKey string, sc balancer.SubConn) {
 	if !ok {
 		gb.affinityMap[bindKey] = sc
 	}
-	gb.scRefs[sc].affinityIncr()
+	if scRef, found := gb.scRefs[sc]; found {
+		scRef.affinityIncr()
+	}
 }
 
 // unbindSubConn removes the existing binding associated with the key.
@@ -438,7 +440,9 @@ func (gb *gcpBalancer) unbindSubConn(boundKey string) {
 	defer gb.mu.Unlock()
 	boundSC, ok := gb.affinityMap[boundKey]
 	if ok {
-		gb.scRefs[boundSC].affinityDecr()
+		if scRef, found := gb.scRefs[boundSC]; found {
+			scRef.affinityDecr()
+		}
 		delete(gb.affinityMap, boundKey)
 	}
 }
